@@ -402,3 +402,42 @@ func uniqueKey(k reflect.Value, i int) {
 		}
 	}
 }
+
+// Chain builds a value of a self-referential struct type nested n levels deep
+// through its first pointer-to-self field (a linked list of n nodes), each
+// level with a little scalar content. ok=false if t has no such field.
+func Chain(t reflect.Type, r *engine.PRNG, n int) (reflect.Value, bool) {
+	if t.Kind() != reflect.Struct {
+		return reflect.Value{}, false
+	}
+	fi := -1
+	for i := 0; i < t.NumField(); i++ {
+		ft := t.Field(i).Type
+		if ft.Kind() == reflect.Ptr && ft.Elem() == t && t.Field(i).PkgPath == "" {
+			fi = i
+			break
+		}
+	}
+	if fi < 0 {
+		return reflect.Value{}, false
+	}
+	root := reflect.New(t).Elem()
+	cur := root
+	for lvl := 0; lvl < n; lvl++ {
+		g := &gen{r: r, o: GenOpts{Size: 3, MaxDepth: 1, ZeroPct: 40}, budget: 3}
+		for i := 0; i < t.NumField(); i++ {
+			k := t.Field(i).Type.Kind()
+			if i != fi && t.Field(i).PkgPath == "" && (k == reflect.Int || k == reflect.String) {
+				g.budget = 2
+				g.fill(cur.Field(i), 2, false)
+			}
+		}
+		if lvl == n-1 {
+			break
+		}
+		next := reflect.New(t)
+		cur.Field(fi).Set(next)
+		cur = next.Elem()
+	}
+	return root, true
+}
